@@ -91,7 +91,7 @@ struct C12Case {
 fn build_c12_tree(root: &Path, bits: usize, decl_yaml: &str, trace: &Path) {
     let tr = trace.display();
     let yml = format!(
-        "imports:\n  q: q\ntargets:\n  t:\n    dependencies: [u]\n    build: 'echo t >> {tr}'\n    input: [{{paths: [src/in.txt]}}]\n    output: {decl}\n  u:\n    build: 'echo u >> {tr}'\n    input: [{{paths: [src/in.txt]}}]\n    output: [{{paths: [uout]}}]\n  v:\n    build: 'echo v >> {tr}'\n    input: [{{paths: [src/in.txt]}}]\n    output: [{{paths: [vout]}}]\n",
+        "imports:\n  q: q\ntargets:\n  t:\n    dependencies: [u, l]\n    build: 'echo t >> {tr}'\n    input: [{{paths: [src/in.txt]}}]\n    output: {decl}\n  l:\n    build: 'echo l >> {tr}'\n    input: [{{paths: [src/in.txt]}}]\n  u:\n    build: 'echo u >> {tr}'\n    input: [{{paths: [src/in.txt]}}]\n    output: [{{paths: [uout]}}]\n  v:\n    build: 'echo v >> {tr}'\n    input: [{{paths: [src/in.txt]}}]\n    output: [{{paths: [vout]}}]\n",
         tr = tr,
         decl = decl_yaml
     );
@@ -125,14 +125,29 @@ fn build_c12_tree(root: &Path, bits: usize, decl_yaml: &str, trace: &Path) {
     if bits & (1 << 6) != 0 {
         write(&root.join(".zinoma/other.txt"), b"unrelated file in the work dir");
     }
-    if bits & (1 << 7) != 0 {
-        write(&root.join(".zinoma/t.checksums"), b"dummy record t");
-        write(&root.join(".zinoma/u.checksums"), b"dummy record u");
+}
+
+/// valid records come from a real first run of every target; the tree bits then say which of them stay
+fn c12_prepare_records(root: &Path, bits: usize, trace: &Path) -> bool {
+    let r = run_zinoma(root, &["t", "v", "q::w"], Duration::from_secs(30));
+    if r.code != Some(0) {
+        return false;
     }
-    if bits & (1 << 8) != 0 {
-        write(&root.join(".zinoma/v.checksums"), b"dummy record v");
-        write(&root.join("q/.zinoma/q::w.checksums"), b"dummy record w");
+    if bits & (1 << 7) == 0 {
+        for t in ["t", "u", "l"] {
+            let _ = std::fs::remove_file(root.join(format!(".zinoma/{}.checksums", t)));
+        }
     }
+    if bits & (1 << 8) == 0 {
+        let _ = std::fs::remove_file(root.join(".zinoma/v.checksums"));
+        let _ = std::fs::remove_file(root.join("q/.zinoma/q::w.checksums"));
+    }
+    if bits & (1 << 6) == 0 && bits & (1 << 7) == 0 && bits & (1 << 8) == 0 {
+        let _ = std::fs::remove_dir_all(root.join(".zinoma"));
+        let _ = std::fs::remove_dir_all(root.join("q/.zinoma"));
+    }
+    let _ = std::fs::remove_file(trace);
+    true
 }
 
 /// reference: which relative paths must be gone after the invocation (before any script runs)
@@ -142,13 +157,14 @@ fn c12_expected_deleted(before: &BTreeMap<PathBuf, Node>, decl: usize, mode: &[&
     // scope = closure of the requested targets (t depends on u)
     let mut scope: BTreeSet<&'static str> = BTreeSet::new();
     if all {
-        scope.extend(["t", "u", "v", "q::w"]);
+        scope.extend(["t", "u", "l", "v", "q::w"]);
     }
     for t in &targets {
         match *t {
             "t" => {
                 scope.insert("t");
                 scope.insert("u");
+                scope.insert("l");
             }
             "u" => {
                 scope.insert("u");
@@ -267,6 +283,11 @@ pub fn check_c12(rep: &mut Report) {
             let root = base.join("proj");
             let trace = base.join("trace.log");
             build_c12_tree(&root, c.tree_bits, decls[c.decl].1, &trace);
+            if !c12_prepare_records(&root, c.tree_bits, &trace) {
+                o.machinery.push(format!("case {}: the preparing run failed", ci));
+                let _ = std::fs::remove_dir_all(&base);
+                continue;
+            }
             let before = snapshot(&root);
             let mode = &modes[c.mode];
             let (del, dontcare, executed) = c12_expected_deleted(&before, c.decl, mode);
@@ -371,7 +392,7 @@ pub fn check_c12(rep: &mut Report) {
     rep.set("traces_validated_against_impl", json!(cases.len()));
     rep.set("invocations_of_the_real_binary", json!(cases.len()));
     rep.set("exhaustive", json!(true));
-    rep.set("bounds", json!({"tree_entries": OUT_ENTRIES, "other_bits": ["unrelated file in .zinoma", "records of t and u", "records of v and q::w"], "trees": if thorough { "all 512" } else { "all out/ subsets with every record present; every 5th out/ subset for the other record combinations" }, "t_output_declarations": decls.iter().map(|d| d.0).collect::<Vec<_>>(), "invocations": modes.iter().map(|m| m.join(" ")).collect::<Vec<_>>()}));
+    rep.set("bounds", json!({"tree_entries": OUT_ENTRIES, "other_bits": ["unrelated file in .zinoma", "records of t, u and l", "records of v and q::w"], "trees": if thorough { "all 512" } else { "all out/ subsets with every record present; every 5th out/ subset for the other record combinations" }, "t_output_declarations": decls.iter().map(|d| d.0).collect::<Vec<_>>(), "invocations": modes.iter().map(|m| m.join(" ")).collect::<Vec<_>>()}));
     rep.set("rule", json!("states = distinct (expected deletion set, declaration, invocation); transitions = invocations of the real binary compared by full recursive snapshot"));
     rep.assumptions.push("don't-care: whether a symlink whose target is a matching regular file is itself unlinked".into());
 }
